@@ -81,10 +81,11 @@ def run(ctx):
             if t.ok:
                 validated += info["traces"]
             elif t.violated == "ObservationsConform":
-                m = re.findall(r"mismatch = <<(\d+), \"([\w-]+)\", \"(\w+)\"", t.out)
+                m = re.findall(r"mismatch = <<\s*(\d+),\s*\"([\w-]+)\",\s*\"(\w+)\"", t.out)   # TLC wraps long tuples over several lines
                 line, backend, op = (int(m[-1][0]), m[-1][1], m[-1][2]) if m else (0, "?", "?")
                 rows = vlib.read_ndjson(tr)
-                start = max(i for i in range(line) if rows[i]["op"] == "tracereset")
+                starts = [i for i in range(min(line, len(rows))) if rows[i]["op"] == "tracereset"]
+                start = max(starts) if starts else 0
                 vlib.report(ctx, {"kind": "trace-vs-spec", "backend": backend, "op": op},
                             {"trace": rows[start:line], "trace_file_line": line, "values": values})
             elif t.violated:
